@@ -20,7 +20,9 @@ theorem checkTags_single_prim (t : Tag) (bs : Bytes) (tl ll : Nat) (len : Int)
     (ht : fetchTag bs = .ok t tl) (hc : isConstructed (bs.headD 0) = false)
     (hl : fetchLength false (bs.drop tl) = .ok len ll) (hlen : 0 ≤ len) :
     checkTags [t] none 0 0 bs = ⟨.ok, tl + ll, 1, len, 0⟩ := by
-  unfold checkTags
+  suffices hraw : checkTagsRaw [t] none 0 0 bs = ⟨.ok, tl + ll, 1, len, 0⟩ by
+    unfold checkTags; rw [hraw]; rfl
+  unfold checkTagsRaw
   simp only [ctTagno, Option.getD_none, Option.isSome_none, List.length_cons, List.length_nil]
   simp only [show ((0 : Int) == 1) = false from rfl, Bool.false_eq_true, if_false]
   have h1 : ((0:Int) == 0 && ((0 : Nat) : Int) + 0 == ((0 + 1 : Nat) : Int)) = false := by decide
